@@ -403,8 +403,17 @@ Definition norm_instr (i : instr) : instr :=
     by [nonempty]). *)
 Inductive attrval := AVString (s : N) | AVExpr (e : expr).
 
+(** DEFGATE specifications.  A Pauli term is its word (one identifier token, e.g. [ZZ]), its
+    coefficient and its qubit arguments; a sequence element is a gate application ([IGate]). *)
+Inductive gspec :=
+| GMatrix (rows : list (list expr))
+| GPermutation (perm : list N)
+| GPauliSum (args : list ident) (terms : list (ident * expr * list ident))
+| GSequence (args : list ident) (gates : list instr).
+
 Inductive item :=
 | Plain (i : instr)
+| DefGate (name : ident) (params : list ident) (spec : gspec)
 | DefCal (mods : list modifier) (name : ident) (params : list expr) (qs : list qubit)
          (body : list instr)
 | DefCalMeasure (name : option ident) (q : qubit) (target : option ident) (body : list instr)
@@ -432,9 +441,41 @@ Definition print_attr (a : ident * attrval) : list tok :=
   TNewLine :: TIndent :: TId (fst a) :: TColon ::
   match snd a with AVString s => [TString s] | AVExpr e => print_e e end.
 
+Fixpoint sep_ints (l : list N) : list tok :=
+  match l with
+  | [] => []
+  | x :: t => match t with [] => [TInt x] | _ => TInt x :: TComma :: sep_ints t end
+  end.
+
+Definition print_pauli_term (t : ident * expr * list ident) : list tok :=
+  let '(w, e, args) := t in
+  TNewLine :: TIndent :: TId w :: TLParen :: print_e e ++ TRParen :: map TId args.
+
+(** [GateSignature]: the qubit arguments are printed for PAULI-SUM and SEQUENCE only *)
+Definition spec_args (sp : gspec) : list ident :=
+  match sp with GPauliSum a _ | GSequence a _ => a | _ => [] end.
+
+Definition spec_kind (sp : gspec) : tok :=
+  match sp with
+  | GMatrix _ => TMatrix | GPermutation _ => TPermutation
+  | GPauliSum _ _ => TPauliSum | GSequence _ _ => TSequence
+  end.
+
+(** every line of a specification ends in a newline: the last one is [print_trail] *)
+Definition print_spec (sp : gspec) : list tok :=
+  match sp with
+  | GMatrix rows => flat_map (fun row => TNewLine :: TIndent :: sep_exprs row) rows
+  | GPermutation perm => TNewLine :: TIndent :: sep_ints perm
+  | GPauliSum _ terms => flat_map print_pauli_term terms
+  | GSequence _ gates => print_body gates
+  end.
+
 Definition print_core (it : item) : list tok :=
   match it with
   | Plain i => print_instr i
+  | DefGate name ps sp =>
+      TCmd CDefGate :: TId name :: print_var_params ps ++ map TId (spec_args sp)
+        ++ TAs :: spec_kind sp :: TColon :: print_spec sp
   | DefCal mods name ps qs body =>
       TCmd CDefCal :: map TModifier mods ++ TId name :: print_params ps ++ map print_qubit qs
         ++ TColon :: print_body body
@@ -452,7 +493,10 @@ Definition print_core (it : item) : list tok :=
   end.
 
 Definition print_trail (it : item) : list tok :=
-  match it with DefCalMeasure _ _ _ _ | DefCircuit _ _ _ _ => [TNewLine] | _ => [] end.
+  match it with
+  | DefCalMeasure _ _ _ _ | DefCircuit _ _ _ _ | DefGate _ _ _ => [TNewLine]
+  | _ => []
+  end.
 
 (** the tokens of [Instruction::to_quil] *)
 Definition print_item (it : item) : list tok := print_core it ++ print_trail it.
@@ -622,7 +666,140 @@ Definition p_defwaveform (ts : list tok) : res item :=
   | _ => Err
   end.
 
-(** [parse_instruction] including the definitions ([Unk]: DEFGATE) *)
+(** ** DEFGATE ([parse_defgate], [parse_matrix], [parse_permutation], [parse_pauli_terms],
+    [parse_sequence_elements]).  The validations of [PauliSum::new] / [DefGateSequence::try_new]
+    and the spelling of a Pauli word (letters I X Y Z, as many as arguments) are not modelled:
+    the words are interned identifiers.  The model parser is therefore only compared on texts the
+    real parser accepts. *)
+
+(** a matrix row: [separated_list0((Comma, many0 Indentation), expression)] *)
+Fixpoint skip_indents (ts : list tok) : list tok :=
+  match ts with TIndent :: r => skip_indents r | _ => ts end.
+
+Fixpoint p_row_tail (fuel : nat) (ts : list tok) : res (list expr) :=
+  match fuel with
+  | O => Fuel
+  | S f =>
+      match ts with
+      | TComma :: r =>
+          match p_expr (skip_indents r) with
+          | Ok e r2 =>
+              match p_row_tail f r2 with
+              | Ok l r3 => Ok (e :: l) r3
+              | o => o
+              end
+          | Err => Ok [] ts
+          | Panic => Panic | Unk => Unk | Fuel => Fuel
+          end
+      | _ => Ok [] ts
+      end
+  end.
+
+Definition p_row (ts : list tok) : res (list expr) :=
+  match p_expr ts with
+  | Ok e r =>
+      match p_row_tail (S (length r)) r with
+      | Ok l r2 => Ok (e :: l) r2
+      | o => o
+      end
+  | Err => Ok [] ts
+  | Panic => Panic | Unk => Unk | Fuel => Fuel
+  end.
+
+(** [separated_list1(NewLine, Indentation element)] positioned after the first newline: another
+    element follows when a newline and an indentation do and the element parses (a recoverable
+    error ends the list before that newline) *)
+Fixpoint p_lines {A} (pe : list tok -> res A) (fuel : nat) (ts : list tok) : res (list A) :=
+  match fuel with
+  | O => Fuel
+  | S f =>
+      match ts with
+      | TIndent :: r =>
+          bind (pe r) (fun x r1 =>
+            match r1 with
+            | TNewLine :: TIndent :: r2 =>
+                match p_lines pe f (TIndent :: r2) with
+                | Ok l r3 => Ok (x :: l) r3
+                | Err => Ok [x] r1
+                | o => o
+                end
+            | _ => Ok [x] r1
+            end)
+      | _ => Err
+      end
+  end.
+
+Definition p_spec_lines {A} (pe : list tok -> res A) (ts : list tok) : res (list A) :=
+  match ts with
+  | TNewLine :: r => p_lines pe (S (length r)) r
+  | _ => Err
+  end.
+
+Fixpoint p_ints_tail (ts : list tok) : list N * list tok :=
+  match ts with
+  | TComma :: r0 =>
+      match r0 with
+      | TInt n :: r => let '(l, r') := p_ints_tail r in (n :: l, r')
+      | _ => ([], ts)
+      end
+  | _ => ([], ts)
+  end.
+
+Definition p_permutation (ts : list tok) : res (list N) :=
+  match ts with
+  | TNewLine :: TIndent :: TInt n :: r => let '(l, r') := p_ints_tail r in Ok (n :: l) r'
+  | _ => Err
+  end.
+
+Fixpoint p_idents (ts : list tok) : list ident * list tok :=
+  match ts with
+  | TId x :: r => let '(l, r') := p_idents r in (x :: l, r')
+  | _ => ([], ts)
+  end.
+
+Definition p_pauli_term (ts : list tok) : res (ident * expr * list ident) :=
+  match ts with
+  | TId w :: TLParen :: r =>
+      match p_expr r with
+      | Ok e (TRParen :: r1) =>
+          match p_idents r1 with
+          | ([], _) => Err
+          | (args, r2) => Ok (w, e, args) r2
+          end
+      | Ok _ _ => Err
+      | Err => Err | Panic => Panic | Unk => Unk | Fuel => Fuel
+      end
+  | _ => Err
+  end.
+
+Inductive gkind := KMatrix | KPermutation | KPauliSum | KSequence.
+
+Definition p_defgate (ts : list tok) : res item :=
+  match ts with
+  | TId name :: r =>
+      let '(ps, r1) := p_var_params r in
+      let '(args, r2) := p_idents r1 in
+      let '(kind, r3) :=
+        match r2 with
+        | TAs :: TMatrix :: r' => (KMatrix, r')
+        | TAs :: TPermutation :: r' => (KPermutation, r')
+        | TAs :: TPauliSum :: r' => (KPauliSum, r')
+        | TAs :: TSequence :: r' => (KSequence, r')
+        | _ => (KMatrix, r2)
+        end in
+      bind (p_colon r3) (fun _ r4 =>
+        match kind with
+        | KMatrix => bind (p_spec_lines p_row r4) (fun rows r5 => Ok (DefGate name ps (GMatrix rows)) r5)
+        | KPermutation => bind (p_permutation r4) (fun p r5 => Ok (DefGate name ps (GPermutation p)) r5)
+        | KPauliSum =>
+            bind (p_spec_lines p_pauli_term r4) (fun ts r5 => Ok (DefGate name ps (GPauliSum args ts)) r5)
+        | KSequence =>
+            bind (p_spec_lines p_gate r4) (fun gs r5 => Ok (DefGate name ps (GSequence args gs)) r5)
+        end)
+  | _ => Err
+  end.
+
+(** [parse_instruction] including the definitions *)
 Definition p_item (vr : variant) (ts : list tok) : res item :=
   match ts with
   | TCmd CDefCal :: r =>
@@ -633,6 +810,7 @@ Definition p_item (vr : variant) (ts : list tok) : res item :=
   | TCmd CDefCircuit :: r => p_defcircuit vr r
   | TCmd CDefFrame :: r => p_defframe r
   | TCmd CDefWaveform :: r => p_defwaveform r
+  | TCmd CDefGate :: r => p_defgate r
   | _ => bind (p_instruction vr ts) (fun i r => Ok (Plain i) r)
   end.
 
@@ -667,9 +845,22 @@ Fixpoint nodup_keys {A} (l : list (ident * A)) : bool :=
 Definition wf_attr (a : ident * attrval) : bool :=
   match snd a with AVString _ => true | AVExpr e => wf_expr e end.
 
+Definition is_gate (i : instr) : bool := match i with IGate _ _ _ _ => true | _ => false end.
+
+Definition wf_spec (sp : gspec) : bool :=
+  match sp with
+  | GMatrix rows => nonempty rows && forallb (forallb wf_expr) rows
+  | GPermutation perm => nonempty perm
+  | GPauliSum _ terms =>
+      nonempty terms
+      && forallb (fun t : ident * expr * list ident => wf_expr (snd (fst t)) && nonempty (snd t)) terms
+  | GSequence _ gates => nonempty gates && forallb (fun g => is_gate g && wf_instr g) gates
+  end.
+
 Definition wf_item (it : item) : bool :=
   match it with
   | Plain i => wf_instr i
+  | DefGate _ _ sp => wf_spec sp
   | DefCal _ _ ps _ body => forallb wf_expr ps && nonempty body && forallb wf_instr body
   | DefCalMeasure _ _ _ body | DefCircuit _ _ _ body => nonempty body && forallb wf_instr body
   | DefFrame f attrs =>
@@ -691,7 +882,7 @@ Definition norm_item (it : item) : item :=
   | DefCalMeasure n q t body => DefCalMeasure n q t (map norm_instr body)
   | DefCircuit n p q body => DefCircuit n p q (map norm_instr body)
   | DefFrame f attrs => DefFrame f (fold_left (fun acc x => amap_insert x acc) attrs [])
-  | DefWaveform _ _ _ _ => it
+  | DefWaveform _ _ _ _ | DefGate _ _ _ => it
   end.
 
 (** * Instance checker and case-file entry point *)
